@@ -1,4 +1,5 @@
 import FxVerif.Model.C13
+import FxVerif.Model.C07Gov
 import FxVerif.Model.Util
 /-! line-protocol driver for the C13/C07 model: `lake env lean --run Driver/C13.lean < ops.txt` -/
 open FxVerif FxVerif.Util FxVerif.Model.C13
@@ -73,7 +74,9 @@ def step (st : St) (line : String) : St × String :=
     | _ => ({}, "ok")
   | ws =>
     match parseOp ws with
-    | none => (st, "bad-op")
+    | none => match FxVerif.Model.C07Gov.gline ws with   -- gov half of C07 (stateless: the tally inputs are on the line)
+      | some r => (st, r)
+      | none => (st, "bad-op")
     | some (.valslash v num den) =>
       let (s', r) := FxVerif.Model.C13.step st.s (.valslash v num den)
       ({ st with s := s' }, showRes r ++ " ~")
